@@ -26,6 +26,26 @@ def pinned_clock(now):
         RF.time, RT.time = old
 
 
+@contextlib.contextmanager
+def pinned_random(inputs):
+    """run the real package with functions.token_bytes pinned to the model's random stream: the k-th call returns
+    inputs['rand<k>'] (zero-padded / cut to the requested length); `state['k'] = 0` restarts the stream (oracle runs)"""
+    import tapescript.functions as RF
+    old = RF.token_bytes
+    state = {'k': 0}
+
+    def token_bytes(count=32):
+        v = inputs.get(f"rand{state['k']}", b'')
+        v = bytes(v) if isinstance(v, (bytes, bytearray)) else b''
+        state['k'] += 1
+        return (v + bytes(count))[:count]
+    RF.token_bytes = token_bytes
+    try:
+        yield state
+    finally:
+        RF.token_bytes = old
+
+
 def outcome_of(fn, *a, **kw):
     """('ok', value) | ('raise', exception)  — catches the package's BaseException-derived errors too"""
     from sx.core import SxError
